@@ -167,11 +167,34 @@ def r2_errors_contained(repo=None):
     if n_mut < 3:
         raise AnalysisError("%s: %d file-system operations found, 5 confirmed" % (q, n_mut))
     meths = set(m.methods(HD))
-    if meths & {"on_deleted", "on_moved"}:
-        r.violation(m.rel, HD, "overrides %s" % sorted(meths & {"on_deleted", "on_moved"}), "deleting or moving a source file would change "
+    # a deletion in the source never changes the destination; a move may only be handled as "the new name is a file to mirror"
+    bad_over = []
+    if "on_deleted" in meths:
+        bad_over.append("on_deleted")
+    moved_ok = None
+    if "on_moved" in meths:
+        mv = m.fn(HD + ".on_moved")
+        body = [x for x in mv.body if not (isinstance(x, ast.Expr) and isinstance(x.value, ast.Constant))]
+        texts = [norm(ast.unparse(x)) for x in body]
+        muts = [c for c in ast.walk(mv) if isinstance(c, ast.Call) and (pyfront.call_name(c) or "") in pycalls.MUTATORS]
+        if texts == ["self.mirror_to_dest(event.dest_path)"] and not muts:
+            moved_ok = True
+        else:
+            bad_over.append("on_moved")
+    if bad_over:
+        r.violation(m.rel, HD, "overrides %s" % sorted(bad_over), "deleting or moving a source file would change "
                     "the destination", line=m.cls(HD).lineno)
+    elif moved_ok:
+        r.ok("%s:%s %s" % (m.rel, m.fn(HD + ".on_moved").lineno, HD), "on_deleted is not overridden; on_moved only mirrors the new name "
+             "(nothing is ever removed from the destination)")
     else:
-        r.ok("%s:%s %s" % (m.rel, m.cls(HD).lineno, HD), "on_deleted / on_moved are not overridden (nothing is ever removed from the destination)")
+        # without on_moved a file announced by a moved event onto a matching name (what a polling observer reports when a new file
+        # re-uses the inode of a deleted one) is never mirrored, while the move-mode ringbuffer tracks it and deletes it later
+        r.violation(m.rel, HD, "no on_moved",
+                    "a file that is announced by a `moved` event onto a matching name is ignored by the mirror handler although the "
+                    "ringbuffer handler of move mode tracks it (its on_moved adds the new name) and later deletes it: with a polling "
+                    "observer a new metadata file that re-uses the inode of a deleted one is reported exactly so, and is lost "
+                    "without ever being copied", line=m.cls(HD).lineno)
     for name in ("on_created", "on_modified"):
         src = norm(ast.unparse(m.fn(HD + "." + name)))
         if "self.mirror_to_dest(event.src_path)" in src:
